@@ -1,6 +1,8 @@
 import Revm.Proofs.EvmLinkTotal3
 import Revm.Proofs.EvmLinkEther6
 import Revm.Proofs.EvmLinkNoFuel
+import Revm.Proofs.EvmLinkFeeVal
+import Revm.Proofs.EvmLinkCor
 /-! LINK, panic-freedom, part 4: the transaction handler around the loop — validation, `load_accounts`,
 `deduct_caller`, the EIP-7702 list, the first frame, `reimburse_caller`, `reward_beneficiary`, `output` — and
 **`Evm.transact` hits no journal / frame-machine `unwrap`** on a well-formed world. -/
@@ -87,7 +89,8 @@ theorem wok_setInfo {w : World} (h : WOk w) {a : Nat} {acc acc' : Journal.Acct} 
     WS w { w with js := Journal.setAcct w.js a acc' } :=
   ⟨⟨h.good.upd hs hst hb, h.dbal⟩, Grows.upd hs hst, rfl⟩
 
-theorem tot2_deductCaller {w : World} (h : WOk w) (e : Evm.Env) (spec : Nat) :
+theorem tot2_deductCaller {w : World} (h : WOk w) (e : Evm.Env) (spec : Nat)
+    (hfee : GasCalc.enabled spec GasCalc.SpecId.CANCUN = true → e.block.blobGasPrice.isSome) :
     Tot2 (deductCaller e spec w) (fun w1 => WS w w1) := by
   unfold deductCaller
   refine tot2_bind (tot2_of_tot (tot_loadAccount h _)) (fun r hr => ?_)
@@ -96,9 +99,11 @@ theorem tot2_deductCaller {w : World} (h : WOk w) (e : Evm.Env) (spec : Nat) :
   refine tot2_bind (tot2_of_tot (tot_acct hr.2)) (fun acc hacc => ?_)
   refine tot2_bind (P := fun _ => True) ?_ (fun gc _ => ?_)
   · split
-    · cases e.calcDataFee with
-      | none => exact tot2_resid (by unfold Resid; simp)
-      | some fee => exact tot2_pure trivial
+    · rename_i hc
+      unfold Evm.Env.calcDataFee
+      obtain ⟨p, hp⟩ := Proofs.Journal.isSome_cases (hfee hc)
+      rw [hp]
+      exact tot2_pure trivial
     · exact tot2_pure trivial
   · have hb := h.good
     refine tot2_pure (hr.1.trans (wok_setInfo hr.1.ok hacc ?_ ?_))
@@ -185,23 +190,87 @@ theorem tot2_applyAuthList {w : World} (h : WOk w) (e : Evm.Env) (spec : Nat) :
       · exact tot2_pure ⟨_, rfl, hr.trans hp⟩
     · exact tot2_pure (WS.refl h)
 
+/-- `validate_env` never reaches `expect("already checked")`: the block check rejects a Cancun block without blob gas
+price first, and blob fields before Cancun are rejected before the price is read — for every `SpecId` -/
+theorem tv_validateEnv_ne_panic (s : Nat) (cfg : TxValidate.Cfg) (blk : TxValidate.Block) (tx : TxValidate.Tx) :
+    TxValidate.validateEnv s cfg blk tx ≠ .panic := by
+  unfold TxValidate.validateEnv TxValidate.validateBlockEnv
+  split
+  · exact fun h => nomatch h
+  · split
+    · exact fun h => nomatch h
+    · rename_i hb
+      show TxValidate.validateTx s cfg blk tx ≠ .panic
+      unfold TxValidate.validateTx
+      split
+      · exact fun h => nomatch h
+      · split
+        · exact fun h => nomatch h
+        · split
+          · exact fun h => nomatch h
+          · apply Proofs.TxValidate.andThen_ne_panic _ _ (Proofs.TxValidate.feeChecks_ne_panic _ _ _)
+            intro _
+            apply Proofs.TxValidate.andThen_ne_panic _ _ (Proofs.TxValidate.initcodeCheck_ne_panic _ _ _)
+            intro _
+            have hbc : TxValidate.blobChecks s cfg blk tx ≠ .panic := by
+              unfold TxValidate.blobChecks
+              split
+              · exact fun h => nomatch h
+              · rename_i hn
+                split
+                · rename_i mx hmx
+                  split
+                  · rename_i hnone
+                    exfalso
+                    simp only [hmx, Option.isSome_some, Bool.true_or, Bool.and_true, Bool.not_eq_true',
+                      Bool.not_eq_true] at hn
+                    simp only [hnone, Option.isNone_none, Bool.and_true, Bool.not_eq_true] at hb
+                    exact hn hb
+                  · repeat' split
+                    all_goals exact fun h => nomatch h
+                · split <;> exact fun h => nomatch h
+            apply Proofs.TxValidate.andThen_ne_panic _ _ hbc
+            intro _
+            unfold TxValidate.authChecks
+            repeat' split
+            all_goals exact fun h => nomatch h
+
+/-- the initcode cost never overflows: `num_words` saturates at `u64::MAX / 32` -/
+theorem initcodeCost_some (len : Nat) : ∃ c, GasCalc.initcodeCost len = some c := by
+  unfold GasCalc.initcodeCost GasCalc.costPerWord U64ops.checkedMul GasCalc.numWords GasCalc.INITCODE_WORD_COST
+  have hU := U64_val
+  have h1 : U64ops.saturatingAdd len 31 ≤ U64 - 1 := by unfold U64ops.saturatingAdd; split <;> omega
+  generalize U64ops.saturatingAdd len 31 = x at h1
+  rw [if_pos (by omega)]
+  exact ⟨_, rfl⟩
+
+theorem initialTxGas_ne_none (spec : Nat) (input : List Nat) (ic : Bool) (al : List Nat) (n : Nat) :
+    GasCalc.calculateInitialTxGas spec input ic al n ≠ none := by
+  unfold GasCalc.calculateInitialTxGas
+  obtain ⟨c, hc⟩ := initcodeCost_some input.length
+  simp only [hc]
+  split
+  · rename_i heq
+    split at heq <;> cases heq
+  · split <;> exact fun h => nomatch h
+
 theorem tot2_preverify {w : World} (h : WOk w) (e : Evm.Env) (spec : Nat) :
     Tot2 (preverify w e spec) (fun o => ∀ p, o = some p → WS w p.1) := by
   unfold preverify
   have hv : Tot2 (validateEnv e spec) (fun _ => True) := by
     rw [validateEnv_link]
-    generalize TxValidate.validateEnv spec (tvCfg e) (tvBlock e) (tvTx e) = r
+    generalize hr : TxValidate.validateEnv spec (tvCfg e) (tvBlock e) (tvTx e) = r
     cases r with
     | ok => exact trivial
     | err x => exact trivial
-    | panic => exact tot2_resid (by unfold Resid; simp)
+    | panic => exact absurd hr (tv_validateEnv_ne_panic _ _ _ _)
   refine tot2_bind hv (fun b _ => ?_)
   split
   · exact tot2_pure (fun p hp => nomatch hp)
   · refine tot2_bind (P := fun _ => True) ?_ (fun g _ => ?_)
-    · generalize GasCalc.calculateInitialTxGas spec e.tx.data e.tx.to.isNone _ _ = o
+    · generalize ho : GasCalc.calculateInitialTxGas spec e.tx.data e.tx.to.isNone _ _ = o
       cases o with
-      | none => exact tot2_resid (by unfold Resid; simp)
+      | none => exact absurd ho (initialTxGas_ne_none _ _ _ _ _)
       | some x => exact tot2_pure trivial
     · obtain ⟨ig, fg⟩ := g
       dsimp only
@@ -275,11 +344,12 @@ theorem first_of_fout {w w1 : World} {fr : FrameOrResult Journal.Checkpoint} (h 
     | head => exact fa f rfl a ha
     | tail _ hg => cases hg
 
-theorem tot2_prepare {w : World} (h : WOk w) (e : Evm.Env) (spec ig : Nat) :
+theorem tot2_prepare {w : World} (h : WOk w) (e : Evm.Env) (spec ig : Nat)
+    (hfee : GasCalc.enabled spec GasCalc.SpecId.CANCUN = true → e.block.blobGasPrice.isSome) :
     Tot2 (prepare journalOps e spec ig w) FirstOk := by
   unfold prepare
   dsimp only
-  refine tot2_bind (tot2_deductCaller (wok_loadAccounts e spec h) e spec) (fun wd hd => ?_)
+  refine tot2_bind (tot2_deductCaller (wok_loadAccounts e spec h) e spec hfee) (fun wd hd => ?_)
   refine tot2_bind (tot2_applyAuthList hd.ok e spec) (fun p hp => ?_)
   obtain ⟨wa, rf⟩ := p
   dsimp only at hp ⊢
@@ -291,22 +361,31 @@ theorem tot2_prepare {w : World} (h : WOk w) (e : Evm.Env) (spec ig : Nat) :
     obtain ⟨f, wf⟩ := q
     exact tot2_pure (first_of_fout hp.ok hq.1 hq.2 _ _)
 
+theorem tot2_bind' {α β} {x : R α} {f : α → R β} {P : α → Prop} {Q : β → Prop} (h1 : Tot2 x P)
+    (h2 : ∀ a, x = .ok a → P a → Tot2 (f a) Q) : Tot2 (x >>= f) Q := by
+  cases x with
+  | error e => exact h1
+  | ok a => exact h2 a rfl h1
+
 /-- **`Evm.transact` hits no journal / frame-machine `unwrap`**: on a well-formed world (C07 `Good` journal, 256-bit
 balances in the database), for every environment, fork and fuel, the answer is a result, a soft failure, or a residual
 failure (interpreter side / environment / fuel) -/
 theorem transact_tot2 (fuel : Nat) (w : World) (e : Evm.Env) (spec : Nat) (h : WOk w) :
     Tot2 (Evm.transact fuel w e spec) (fun p => WOk p.2) := by
   unfold Evm.transact transactWith
-  refine tot2_bind (tot2_preverify h e _) (fun o ho => ?_)
+  refine tot2_bind' (tot2_preverify h e (GasCalc.canon spec)) (fun o hp ho => ?_)
   cases o with
   | none => exact tot2_pure h
   | some p =>
     obtain ⟨w1, ig, fg⟩ := p
     have h1 : WOk w1 := (ho _ rfl).ok
+    obtain ⟨hvE, _, _, _, _⟩ := preverify_some_inv w w1 e _ ig fg hp
+    have hfee : GasCalc.enabled (GasCalc.canon spec) GasCalc.SpecId.CANCUN = true → e.block.blobGasPrice.isSome :=
+      (Proofs.TxGas.validateEnv_none _ _ (txgas_validateEnv_of_evm e _ hvE)).1
     dsimp only
     refine tot2_bind (P := fun p : TxResult × World => WOk p.2) ?_ (fun p hp => tot2_pure hp)
     unfold execute
-    refine tot2_bind (tot2_prepare h1 e _ ig) (fun q hq => ?_)
+    refine tot2_bind (tot2_prepare h1 e _ ig hfee) (fun q hq => ?_)
     obtain ⟨first, w2, isCreate, k⟩ := q
     dsimp only
     refine tot2_bind (P := fun p : Interp.ChildResult × World => WOk p.2) ?_ (fun p hp => ?_)
